@@ -8,6 +8,7 @@ import PybropsModel.Drv.C08
 import PybropsModel.Drv.C09
 import PybropsModel.Drv.C10
 import PybropsModel.Drv.C11
+import PybropsModel.Drv.C12
 import PybropsModel.Drv.C13
 import PybropsModel.Drv.C14
 import PybropsModel.Drv.C15
@@ -29,6 +30,7 @@ def allOps : List (String × J.Op) := List.flatten [
   Drv.C09.ops,
   Drv.C10.ops,
   Drv.C11.ops,
+  Drv.C12.ops,
   Drv.C13.ops,
   Drv.C14.ops,
   Drv.C15.ops,
